@@ -113,7 +113,30 @@ def run(ctx, res):
                                       [x[-60:] for x in (o[1] if o[0] == 'ok' else []) if w[0] == 'ok' and x not in w[1]][:3]), 'replay': {'case': rec['case']}})
         elif rec['model'][0] == 'ok' and not family.same(o, rec['model']) and not trig:
             res.disagreements.append({'what': 'reader model for kind %s differs from the implementation' % k, 'replay': rec['case']})
-    res.samples = [{'rows': tables[0]['sources'][0]['rows'][:3], 'kinds': KINDS}]
+    # a .csv file with another delimiter (semicolon) goes through the delimiter-sniffing fallback of _read_csv: tame cells
+    # (no separators, quotes or blanks: the sniffer is a heuristic) whose lexical form a typed read would not keep
+    TAME = ['a', 'b7', '007', '1.50', '20.00', '1e3', '-0', '3.14159265358979323846', 'true', 'None', 'x_y', '10', '2020-01-01']
+    tame = []
+    for _ in range(ctx.scale(10, 150)):
+        t = gen_table_case(ctx.rng)
+        for r in t['sources'][0]['rows']:
+            for i in range(1, len(r)):
+                r[i] = ctx.rng.choice(TAME)
+        tame.append(t)
+    ssv = []
+    for t in tame:
+        c = copy.deepcopy(t); c['sources'][0]['kind'] = 'ssv'; ssv.append(c)
+    for t, a, b in zip(tame, batch.run(tame, want_spec=False), batch.run(ssv, want_spec=False)):
+        res.evaluations += 1
+        res.count('kind:ssv')
+        res.distinct.add((json.dumps(t['sources'][0]['rows'], ensure_ascii=False), 'ssv', False))
+        if not family.same(a['impl'], b['impl']):
+            def brief(x):
+                return x if x[0] != 'ok' else ('ok', len(x[1]))
+            res.violations.append({'key': None, 'sig': 'kind:ssv', 'what': 'a semicolon-separated .csv file gives other statements than the comma-separated one: CSV %s, semicolon %s; only CSV %r, only semicolon %r'
+                                   % (brief(a['impl']), brief(b['impl']), [x[-60:] for x in (a['impl'][1] if a['impl'][0] == 'ok' else []) if b['impl'][0] == 'ok' and x not in b['impl'][1]][:3],
+                                      [x[-60:] for x in (b['impl'][1] if b['impl'][0] == 'ok' else []) if a['impl'][0] == 'ok' and x not in a['impl'][1]][:3]), 'replay': {'case': b['case']}})
+    res.samples = [{'rows': tables[0]['sources'][0]['rows'][:3], 'kinds': KINDS + ['ssv']}]
 
 
 def replay(ctx, res, payload):
